@@ -250,3 +250,30 @@ pub fn luau_number<S: Source>(s: &mut S) {
     core::mem::forget(number);
 }
 proof!(#[kani::unwind(34)] c06_luau_number => luau_number);
+
+// ------------------------------------------------------------------------------------------ C12
+fn identifier_character<S: Source>(s: &mut S) -> char {
+    let c = s.any_u8();
+    s.assume(is_alpha(c) || is_digit(c));
+    c as char
+}
+
+/// H-C12-sortcmp: the character order rename_variables sorts generated names with is a strict
+/// weak order on the identifier alphabet (`sort_by` may panic on an inconsistent comparator
+/// since Rust 1.81, and the order decides which names are handed out first).
+pub fn sort_char_order<S: Source>(s: &mut S) {
+    use core::cmp::Ordering::*;
+    let (a, b, c) = (identifier_character(s), identifier_character(s), identifier_character(s));
+    let ab = hooks::rename_sort_char(a, b);
+    let ba = hooks::rename_sort_char(b, a);
+    let bc = hooks::rename_sort_char(b, c);
+    let ac = hooks::rename_sort_char(a, c);
+    note!(s, "sort_char({:?},{:?})={:?} ({:?},{:?})={:?} ({:?},{:?})={:?} ({:?},{:?})={:?}", a, b, ab, b, a, ba, b, c, bc, a, c, ac);
+    observe!(ab == Less, "some pair is ordered");
+    claim!(s, hooks::rename_sort_char(a, a) == Equal, "the order is reflexive");
+    claim!(s, ab == ba.reverse(), "the order is antisymmetric: cmp(a, b) is the reverse of cmp(b, a)");
+    claim!(s, !(ab == Less && bc == Less) || ac == Less, "the order is transitive");
+    claim!(s, !(ab == Equal && bc == Equal) || ac == Equal, "equivalence is transitive");
+    claim!(s, !(ab == Equal && bc == Less) || ac == Less, "equivalent characters compare alike");
+}
+proof!(c12_sort_char_order => sort_char_order);
